@@ -255,6 +255,7 @@ func c04Run(r *vt.Run, c c04Case) (points []sim.Point, devDesc string, found []c
 			}
 		}
 		crashed := false
+		pubOverDead := false
 		devDesc = "fault-free"
 		tick := func(label string, faultFree bool) bool {
 			before := c04Check(h, c, conds)
@@ -350,6 +351,34 @@ func c04Run(r *vt.Run, c c04Case) (points []sim.Point, devDesc string, found []c
 					}
 				}
 			}
+			// (e) ... also when the manager's last look at the master before publishing failed
+			if c.Dev != nil && label == "S2 iteration 0" && (c.Dev.Kind == sim.DevErr || c.Dev.Kind == sim.DevHang || c.Dev.Kind == sim.DevTargetDownBefore) {
+				pub, lastPing := -1, -1
+				for i, q := range w.Trace[base:] {
+					if q.Kind == "zk" && q.Op == "set" && q.Target == vns+"/active_nodes" {
+						pub = i
+						break
+					}
+					if q.Kind == "sql" && q.Target == "h1" && q.Op == "ping" {
+						lastPing = i
+					}
+				}
+				if pub >= 0 && lastPing == c.Dev.At && (c.Dev.Kind != sim.DevTargetDownBefore || !w.Servers["h1"].Up) {
+					for _, host := range listBefore {
+						if !slices.Contains(list, host) {
+							violate("C04/5-eviction-only-with-master-reachable", fmt.Sprintf("%s evicted from %v although the manager's last ping of the master before publishing failed, during %s", host, listBefore, where))
+						}
+					}
+				}
+			}
+			if pubOverDead {
+				pubOverDead = false
+				for _, host := range listBefore {
+					if !slices.Contains(list, host) {
+						violate("C04/5-eviction-only-with-master-reachable", fmt.Sprintf("%s evicted from %v by a publication made while the master was down (it died after the manager's last successful ping), during %s", host, listBefore, where))
+					}
+				}
+			}
 			// (e) members are evicted only while the manager can reach the master
 			if !masterReachAtStart {
 				for _, host := range listBefore {
@@ -360,6 +389,13 @@ func c04Run(r *vt.Run, c c04Case) (points []sim.Point, devDesc string, found []c
 			}
 			return true
 		}
+		// (e) at the instant of publication: a shrinking list must not be published over a dead master
+		w.OnApply = append(w.OnApply, func(ap *sim.Applied) {
+			if ap.Effect && ap.Call.Kind == "zk" && ap.Call.Op == "set" && ap.Call.Target == vns+"/active_nodes" && !w.Servers["h1"].Up {
+				r.Count("publications_with_master_down")
+				pubOverDead = true
+			}
+		})
 		// converge under S1
 		apply(c.S1)
 		for i := 0; i < 4; i++ {
@@ -470,13 +506,15 @@ func checkC04(r *vt.Run) {
 		cascade     bool
 		manager     string
 		nvar        int // number of varying replicas
+		kinds       []int
 	}
 	var cfgs []cfg
 	if r.Quick() {
-		cfgs = []cfg{{3, 1, true, false, "h1", 1}, {3, 1, false, true, "h2", 1}, {4, 2, true, false, "h1", 1}}
+		cfgs = []cfg{{3, 1, true, false, "h1", 1, nil}, {3, 1, false, true, "h2", 1, nil}, {4, 2, true, false, "h1", 1, nil},
+			{3, 1, true, false, "h1", 2, []int{qHealthy, qSQLError, qMarked}}}
 	} else {
-		cfgs = []cfg{{3, 1, true, false, "h1", 2}, {3, 1, false, true, "h1", 1}, {3, 2, true, false, "h2", 1}, {2, 1, true, false, "h1", 1},
-			{4, 2, true, false, "h1", 2}, {4, 2, false, false, "h2", 1}, {4, 3, false, true, "h1", 1}, {5, 2, true, false, "h1", 1}, {5, 3, false, false, "h2", 1}}
+		cfgs = []cfg{{3, 1, true, false, "h1", 2, nil}, {3, 1, false, true, "h1", 1, nil}, {3, 2, true, false, "h2", 1, nil}, {2, 1, true, false, "h1", 1, nil},
+			{4, 2, true, false, "h1", 2, nil}, {4, 2, false, false, "h2", 1, nil}, {4, 3, false, true, "h1", 1, nil}, {5, 2, true, false, "h1", 1, nil}, {5, 3, false, false, "h2", 1, nil}}
 	}
 	var cs []string
 	for _, c := range cfgs {
@@ -494,15 +532,22 @@ func checkC04(r *vt.Run) {
 		if nvar < 1 {
 			continue
 		}
+		kinds := cf.kinds
+		if kinds == nil {
+			for k := 0; k < qNKinds; k++ {
+				kinds = append(kinds, k)
+			}
+		}
+		nk := len(kinds)
 		total := 1
 		for i := 0; i < nvar; i++ {
-			total *= qNKinds
+			total *= nk
 		}
 		mk := func(code int) []int {
 			s := make([]int, nrep)
 			for i := 0; i < nvar; i++ {
-				s[i] = code % qNKinds
-				code /= qNKinds
+				s[i] = kinds[code%nk]
+				code /= nk
 			}
 			return s
 		}
@@ -513,7 +558,7 @@ func checkC04(r *vt.Run) {
 		for s1 := 0; s1 < total; s1++ {
 			for s2 := 0; s2 < total; s2++ {
 				for _, m2 := range m2s {
-					if m2 != 0 && nvar > 1 && s2%qNKinds != s2/qNKinds && r.Quick() {
+					if m2 != 0 && nvar > 1 && s2%nk != s2/nk && r.Quick() {
 						continue
 					}
 					idx++
@@ -546,8 +591,12 @@ func checkC04(r *vt.Run) {
 						} else if upd >= 0 && i >= upd && !p.Fails {
 							devs = append(devs, sim.Deviation{At: i, Kind: sim.DevErr})
 						}
-						if upd >= 0 && i >= upd && p.Kind == "sql" && p.Target == "h1" && c.Manager != "h1" && p.Mut {
-							devs = append(devs, sim.Deviation{At: i, Kind: sim.DevTargetDownBefore})
+						if upd >= 0 && i >= upd && p.Kind == "sql" {
+							marg := 1 // index+1 of h1 among the sorted server names
+							if cf.cascade {
+								marg = 2 // "c1" sorts before "h1"
+							}
+							devs = append(devs, sim.Deviation{At: i, Kind: sim.DevTargetDownBefore, Arg: marg}) // the master dies before this call
 						}
 						for _, d := range devs {
 							d := d
